@@ -469,32 +469,74 @@ func c10Thresholds(c *Ctx, p *Prog, fn *ssa.Function, kind string) {
 	// Sprintf literal -> ParseFloat -> field of factor
 	site := p.pos(fn.Pos())
 	type thr struct {
-		lit   string
-		field string
+		lit    string
+		field  string
+		expArg ssa.Value // the operand printed into the literal's %d
 	}
 	var ths []thr
-	for _, call := range callsIn(fn, "strconv", "", "ParseFloat") {
-		cc := call.Common()
-		sp, ok := cc.Args[0].(*ssa.Call)
-		if !ok || !objIs(calleeObj(&sp.Call), "fmt", "", "Sprintf") {
-			continue
-		}
-		lit, _ := constString(sp.Call.Args[0])
-		// result #0 stored into which field
+	fieldOfResult := func(v ssa.Value) string {
 		field := ""
-		for _, r := range *call.Value().Referrers() {
-			if ex, ok := r.(*ssa.Extract); ok && ex.Index == 0 {
-				for _, r2 := range *ex.Referrers() {
-					if st, ok := r2.(*ssa.Store); ok {
-						if f, _ := fieldOfAddr(st.Addr); f != nil {
-							field = f.Name()
-						}
+		for _, r := range *v.Referrers() {
+			if st, ok := r.(*ssa.Store); ok {
+				if f, _ := fieldOfAddr(st.Addr); f != nil {
+					field = f.Name()
+				}
+			}
+		}
+		return field
+	}
+	sprintfOperand := func(sp *ssa.Call) ssa.Value {
+		if len(sp.Call.Args) < 2 {
+			return nil
+		}
+		if sl, ok := sp.Call.Args[1].(*ssa.Slice); ok {
+			if al, ok := sl.X.(*ssa.Alloc); ok {
+				for _, st := range storesInto(al) {
+					if mi, ok := st.Val.(*ssa.MakeInterface); ok {
+						return mi.X
 					}
 				}
 			}
 		}
-		ths = append(ths, thr{lit, field})
+		return nil
 	}
+	// a helper of the package that parses the text printed by a format with one integer operand
+	isThresholdParser := func(f *ssa.Function) bool {
+		if f == nil || f.Blocks == nil || f.Pkg != fn.Pkg || len(f.Params) != 2 || !isString(f.Params[0].Type()) || !isInteger(f.Params[1].Type()) {
+			return false
+		}
+		ok := false
+		for _, call := range callsIn(f, "strconv", "", "ParseFloat") {
+			if sp, isCall := call.Common().Args[0].(*ssa.Call); isCall && objIs(calleeObj(&sp.Call), "fmt", "", "Sprintf") && sp.Call.Args[0] == ssa.Value(f.Params[0]) && sprintfOperand(sp) == ssa.Value(f.Params[1]) {
+				ok = true
+			}
+		}
+		return ok
+	}
+	eachInstr(fn, func(_ *ssa.BasicBlock, in ssa.Instruction) {
+		call, ok := in.(*ssa.Call)
+		if !ok {
+			return
+		}
+		switch {
+		case objIs(calleeObj(&call.Call), "strconv", "", "ParseFloat"):
+			sp, ok := call.Call.Args[0].(*ssa.Call)
+			if !ok || !objIs(calleeObj(&sp.Call), "fmt", "", "Sprintf") {
+				return
+			}
+			lit, _ := constString(sp.Call.Args[0])
+			field := ""
+			for _, r := range *call.Referrers() {
+				if ex, ok := r.(*ssa.Extract); ok && ex.Index == 0 {
+					field = fieldOfResult(ex)
+				}
+			}
+			ths = append(ths, thr{lit, field, sprintfOperand(sp)})
+		case isThresholdParser(call.Call.StaticCallee()):
+			lit, _ := constString(call.Call.Args[0])
+			ths = append(ths, thr{lit, fieldOfResult(call), call.Call.Args[1]})
+		}
+	})
 	want := map[string]string{"t100": "99.995", "t10": "9.9995", "t1": ".99995"}
 	for _, t := range ths {
 		m := expFmt.FindStringSubmatch(t.lit)
@@ -532,28 +574,14 @@ func c10Thresholds(c *Ctx, p *Prog, fn *ssa.Function, kind string) {
 			for x := dv; x < 1; x *= 2 {
 				off--
 			}
-			// find the offset added to exp in the Sprintf argument
+			// the offset added to exp in the printed operand
 			got := int64(1 << 40)
-			for _, call := range callsIn(fn, "fmt", "", "Sprintf") {
-				cc := call.Common()
-				if l, _ := constString(cc.Args[0]); l != t.lit {
-					continue
+			if bo, ok := t.expArg.(*ssa.BinOp); ok && bo.Op == token.ADD {
+				if k, ok := constInt(bo.X); ok {
+					got = k
 				}
-				if sl, ok := cc.Args[1].(*ssa.Slice); ok {
-					if al, ok := sl.X.(*ssa.Alloc); ok {
-						for _, st := range storesInto(al) {
-							if mi, ok := st.Val.(*ssa.MakeInterface); ok {
-								if bo, ok := mi.X.(*ssa.BinOp); ok && bo.Op == token.ADD {
-									if k, ok := constInt(bo.X); ok {
-										got = k
-									}
-									if k, ok := constInt(bo.Y); ok {
-										got = k
-									}
-								}
-							}
-						}
-					}
+				if k, ok := constInt(bo.Y); ok {
+					got = k
 				}
 			}
 			c.Check(got == int64(off), "C10/R3", key+":exponent-offset", site, fmt.Sprintf("scaled by 2^(%d+exp)", off), fmt.Sprintf("the %s threshold is scaled by 2^(%d+exp); %s needs 2^(%d+exp)", t.field, got, dec, off))
